@@ -15,3 +15,19 @@ func VerifDecodeAck(b []byte) (digest []byte, sender uint16, round uint8, err er
 func VerifSyncTopic(members []uint16) []byte {
 	return membershipSyncTopicName(members)
 }
+
+// VerifTables returns the keys (topics) of the three handler tables and the key-generation flag.
+func (s *Scheme) VerifTables() (syncs, rbcs, classifiers []string, dkgRunning bool) {
+	s.lock.RLock()
+	defer s.lock.RUnlock()
+	for k := range s.syncsInProgress {
+		syncs = append(syncs, k)
+	}
+	for k := range s.rbcInProgress {
+		rbcs = append(rbcs, k)
+	}
+	for k := range s.messageClassifiers {
+		classifiers = append(classifiers, k)
+	}
+	return syncs, rbcs, classifiers, s.dkgRunning
+}
